@@ -7,8 +7,12 @@ All actions pulled in one step with the same (time, origin) are put, in queue or
 sequential task (`SeqFuture`); mailboxes are FIFO (C02/C12), so each target model processes them in that order.
 The run phase of the model is quantified over every schedule oracle; the correspondence check validates on
 every real trace that the observed order keeps each (time, origin, target) chain in epoch order.
+That one sequential task runs its members in list order is proved over M-SEQ (Model/SeqFut.lean, the loop of
+`SeqFuture::poll`, read from the source): end of this file.
 -/
 import NexoVerif.Lemmas.SchedGroups
+import NexoVerif.Lemmas.SeqFutThm
+import NexoVerif.Extracted
 
 namespace NexoVerif.Sched
 set_option linter.unusedSimpArgs false
@@ -90,3 +94,28 @@ example : ((pullAll none 5 3 { (St.init 0 none) with queue := [ev 5 0 0 1, ev 5 
     (fun g => g.map (·.aid))) = [[3], [2, 1]] := by decide
 
 end NexoVerif.Sched
+
+/-! ## The sequential task (M-SEQ) -/
+namespace NexoVerif.SeqFut
+
+/-- **seq_future_loop_shape** — `SeqFuture::poll` is the loop M-SEQ models and `push` appends (read from the source on
+every run). -/
+theorem seq_future_loop_shape : Extracted.seqFuturePollsInOrder = true := by decide
+
+/-- **group_members_complete_in_list_order** — however often and with whatever readiness of its members the executor
+polls the compound future of a group of `n ≥ 1` actions: the members complete in list order, each once (the
+completions so far are 0, 1, …, idx−1); a member is polled only after all earlier members have completed (so its
+message is sent after theirs), and never again after it has completed; and when the compound future is `Ready` all
+`n` members have completed. -/
+theorem group_members_complete_in_list_order {n : Nat} (hn : 0 < n) {s : St} (h : Reach n s) :
+    comps s.log = List.range s.idx ∧
+    (∀ a b k, s.log = a ++ Ev.polled k :: b → comps a = List.range k) ∧
+    (s.done = true → comps s.log = List.range n) :=
+  ⟨completions_in_list_order hn h, fun a b k hl => polled_only_after_predecessors hn h a b k hl,
+   ready_means_all_completed hn h⟩
+
+-- non-vacuity: three members, the second one pending at its first poll
+example : (poll (fun _ _ => true) (poll (fun k n => !(k == 1 && n == 2)) { len := 3 })).log =
+    [.polled 0, .completed 0, .polled 1, .polled 1, .completed 1, .polled 2, .completed 2] := by decide
+
+end NexoVerif.SeqFut
